@@ -291,6 +291,11 @@ def run(ctx: Ctx) -> None:
             p = provenance(rets[0].value, fn)
             ctx.check("C19.R4", cw + ".from_toml", "data <- tomllib.load(file)", "load()" in p.ops and "filename" in p.leaves, f"from_toml passes {p}", fn)
         if name == "from_object" and rets:
+            iss = [c for c in calls(fn) if call_name(c) == "isinstance" and len(c.args) == 2 and "getattr(instance" in norm(c.args[0])]
+            classes = sorted(norm(e) for c in iss for e in (c.args[1].elts if isinstance(c.args[1], ast.Tuple) else [c.args[1]]))
+            ctx.check("C19.R4", cw + ".from_object", "only modules (and dunder names) are left out of the mapping", classes == ["types.ModuleType"], f"attributes filtered by type {classes}: settings whose value is a class or a function (logger_class, a callable) would be honoured by from_mapping but silently dropped by from_object / from_pyfile / -c python:", iss[0] if iss else fn)
+            sw = [c for c in calls(fn) if isinstance(c.func, ast.Attribute) and c.func.attr == "startswith" and norm(c.func.value) == "key"]
+            ctx.check("C19.R4", cw + ".from_object", "names skipped only when they start with '__'", len(sw) == 1 and [norm(a) for a in sw[0].args] == ["'__'"], f"name filter: {[norm(c) for c in sw]}", sw[0] if sw else fn)
             p = provenance(rets[0].value, fn)
             ctx.check("C19.R4", cw + ".from_object", "mapping <- {key: getattr(instance, key)}", "getattr()" in p.ops and "instance" in p.leaves and "dir()" in p.ops, f"from_object passes {p}", fn)
     lc = repo.func("__main__", "_load_config")
@@ -412,6 +417,8 @@ def run(ctx: Ctx) -> None:
     ok = "rsplit()" in hp.ops and "int()" in pp.ops and "bind.rsplit(':', 1)" in src and "const:8000" in pp.leaves
     strip = [n for n in walk_local(cs) if isinstance(n, ast.Assign) and dotted(n.targets[0]) == "bind"]
     ok = ok and len(strip) == 1 and norm(strip[0].value) == "bind.replace('[', '').replace(']', '')"
+    okg = len(strip) == 1 and {("bind.startswith('unix:')", False), ("bind.startswith('fd://')", False)} <= guard_atoms(strip[0])
+    ctx.check("C19.R7", w7, "IPv6 brackets are stripped for host:port binds only", okg, "the bracket stripping also runs for unix: / fd:// binds: a unix socket path containing '[' or ']' is bound at a different path", strip[0] if strip else cs)
     ctx.check("C19.R7", w7, "host:port parse", ok, f"host<-{hp} port<-{pp}", cs)
     binds = [c for c in calls(cs) if call_name(c) == "sock.bind"]
     okb = len(binds) == 2 and all(norm(arg(b, 0)) == "binding" for b in binds)
